@@ -21,6 +21,7 @@ type tncConn struct {
 	ctrlOut  chan<- string
 	dataOut  chan<- []byte
 	dataIn   <-chan []byte
+	readBuf  []byte // Remainder of a received frame that did not fit in the buffer given to Read
 	eofChan  chan struct{}
 	ctrlIn   broadcaster
 	isTCP    bool
@@ -53,20 +54,23 @@ func (conn *tncConn) Read(p []byte) (int, error) {
 		return 0, nil
 	}
 
+	// Deliver what is left of the previous frame first
+	if len(conn.readBuf) > 0 {
+		n := copy(p, conn.readBuf)
+		conn.readBuf = conn.readBuf[n:]
+		return n, nil
+	}
+
 	data, ok := <-conn.dataIn
 	if !ok {
 		return 0, io.EOF
 	}
 
-	if len(data) > len(p) {
-		panic("too large") // TODO: Handle
-	}
+	// Keep what does not fit in p for the next call
+	n := copy(p, data)
+	conn.readBuf = data[n:]
 
-	for i, b := range data {
-		p[i] = b
-	}
-
-	return len(data), nil
+	return n, nil
 }
 
 func (conn *tncConn) Write(p []byte) (int, error) {
